@@ -83,6 +83,7 @@ func runC04(c *vkit.Ctx, i int, h *History, om onMode) {
 	s := NewSess("c04")
 	defer s.Close()
 	s.ShareConfigs = i%2 == 0
+	s.ZeroConfigs = i%4 == 1
 	if s.ShareConfigs {
 		c.Count("histories_through_shared_config_objects", 1)
 	}
